@@ -1607,11 +1607,22 @@ class Model:
             if nm is None:
                 return e if isinstance(e, (ast.Tuple, ast.List, ast.Dict)) else None
             cands = []
-            for st in ast.walk(m.tree):
-                if isinstance(st, ast.Assign) and len(st.targets) == 1 and isinstance(st.targets[0], ast.Name) and st.targets[0].id == nm:
-                    cands.append(st.value)
-                elif isinstance(st, ast.AnnAssign) and isinstance(st.target, ast.Name) and st.target.id == nm and st.value is not None:
-                    cands.append(st.value)
+            trees = [m.tree]
+            if isinstance(e, ast.Attribute) and isinstance(e.value, ast.Name) and e.value.id not in ("self", "cls"):
+                # Class.TABLE with the class imported from another module of the repository: its own module
+                r_ = self.resolve(m.name, e.value.id)
+                if r_ and r_[0] == "class" and r_[1] in getattr(self, "classes", {}) and self.classes[r_[1]].mod != m.name:
+                    trees = [self.mods[self.classes[r_[1]].mod].tree]
+            for tree_ in trees:
+                for st in ast.walk(tree_):
+                    if isinstance(st, ast.Assign) and len(st.targets) == 1 and isinstance(st.targets[0], ast.Name) and st.targets[0].id == nm:
+                        cands.append(st.value)
+                    elif isinstance(st, ast.AnnAssign) and isinstance(st.target, ast.Name) and st.target.id == nm and st.value is not None:
+                        cands.append(st.value)
+            if len(cands) == 1 and isinstance(cands[0], ast.Call) and isinstance(cands[0].func, ast.Name) and cands[0].func.id == "dict" and \
+                    not cands[0].args and cands[0].keywords and all(k.arg for k in cands[0].keywords):
+                # dict(a=.., b=..): the display {"a": .., "b": ..}
+                return ast.copy_location(ast.Dict(keys=[ast.Constant(value=k.arg) for k in cands[0].keywords], values=[k.value for k in cands[0].keywords]), cands[0])
             return cands[0] if len(cands) == 1 and isinstance(cands[0], (ast.Tuple, ast.List, ast.Dict)) else None
 
         def column_is_strings(tbl, pos) -> bool:
